@@ -274,6 +274,12 @@ Qed.
 Theorem C01_source_ranges_function : forall (rs : list (nat * nat * fn R)) (x : list R),
   RangesFunction_call (ranges_of rs) (fobjs_of rs) x = feval (FRanges rs) x /\ RangesFunction_deriv (ranges_of rs) (fobjs_of rs) x = fderiv (FRanges rs) x.
 Proof. intros rs x. exact (gen_ranges rs x). Qed.
+(* ADevice.cost / deriv / hess regenerated from adevice.py over an abstract function object: f(s) + sum(s*p), f.deriv(s) + p, f.hess(s) ARE
+   the leaf model of the device whose preference is the function AST node g, for every g *)
+Theorem C01_source_adevice : forall n bnd cb (g : fn R) ucs (s p : list R), let d := Build_leafdev n bnd cb (KA g ucs) in
+  ADevice_cost (fobj_of g) s p = leaf_cost d s p /\ ADevice_deriv (fobj_of g) s p = leaf_deriv d s p /\ ADevice_hess (fobj_of g) s p = leaf_hess d s.
+Proof. intros n bnd cb g ucs s p. exact (gen_adevice n bnd cb g ucs s p). Qed.
+
 
 
 (* ---- sums over contiguous slot ranges: if every summand has a total derivative on its own range, so has the sum, and it is the
